@@ -377,15 +377,11 @@ func (m *listenerManager) ListenStream(addr string) (StreamListener, error) {
 
 	streamLn, exists := m.streamListeners[addr]
 	if !exists {
-		streamLn = NewMultiStreamListener(
-			addr,
-			func() error {
-				m.mu.Lock()
-				delete(m.streamListeners, addr)
-				m.mu.Unlock()
-				return nil
-			},
-		)
+		// The shared listener stays in the map once its last handle is closed: it holds no
+		// socket then and listens again on the next Acquire. Removing it from a close callback
+		// would need this lock while the listener's own lock is held, the reverse of the order
+		// used here, and a Close could deadlock with a concurrent Listen.
+		streamLn = NewMultiStreamListener(addr, nil)
 		m.streamListeners[addr] = streamLn
 	}
 	ln, err := streamLn.Acquire()
@@ -401,15 +397,8 @@ func (m *listenerManager) ListenPacket(addr string) (net.PacketConn, error) {
 
 	packetLn, exists := m.packetListeners[addr]
 	if !exists {
-		packetLn = NewMultiPacketListener(
-			addr,
-			func() error {
-				m.mu.Lock()
-				delete(m.packetListeners, addr)
-				m.mu.Unlock()
-				return nil
-			},
-		)
+		// Kept in the map after its last handle is closed, see ListenStream.
+		packetLn = NewMultiPacketListener(addr, nil)
 		m.packetListeners[addr] = packetLn
 	}
 
